@@ -1399,6 +1399,9 @@ impl Traceable for JsObject {
                 if let Some(env) = &state.current_env {
                     visitor(env.copy_ref());
                 }
+                for env in &state.saved_env_stack {
+                    visitor(env.copy_ref());
+                }
                 // Trace delegated iterator for yield*
                 if let Some((iter_obj, next_method)) = &state.delegated_iterator {
                     visitor(iter_obj.copy_ref());
@@ -3013,6 +3016,9 @@ pub struct BytecodeGeneratorState {
     pub func_env: Option<JsObjectRef>,
     /// The current environment at yield time (may be nested within func_env)
     pub current_env: Option<JsObjectRef>,
+    /// Environments saved by the block scopes that were open at yield time (outermost first);
+    /// restored into the VM on resumption so that leaving those blocks restores the scope
+    pub saved_env_stack: Vec<JsObjectRef>,
     /// Delegated iterator for yield* (iterator object and its next method)
     pub delegated_iterator: Option<(JsObjectRef, JsValue)>,
     /// Whether this is an async generator (next() returns Promise)
